@@ -407,6 +407,44 @@ def tsDivTsF (a b : Int) : Except Err UInt64 := do
   let g ← pyFloat (tsMicroseconds b)
   pyFloatDiv f g
 
+/-- the double a float operand is (`Num.flt n d` is its exact rational value, `d > 0`; the conversion is exact) -/
+def bitsOfNum : Num → Except Err UInt64
+  | .int n => pyFloat n
+  | .flt n d =>
+      match FloatRound.roundRat n d.toNat with
+      | .ok w => .ok w
+      | _ => .error .overflowError
+
+/-- `timedelta(microseconds=x)` for a float `x` (`delta_new` / `accum`): the exact value of the double rounded half-even to a
+    whole number of microseconds; OverflowError for an infinity ("cannot convert float infinity to integer") and outside the
+    timedelta range, ValueError for a NaN -/
+def tsOfFloat (w : UInt64) : Except Err Int :=
+  match FloatRound.decode w with
+  | .fin z => mkTs (roundHalfEven z (FloatRound.scale : Nat))
+  | .nan => .error .valueError
+  | _ => .error .overflowError
+
+/-- `ts * n`, `n * ts` with every float step: an int factor multiplies exactly; a float factor makes
+    `float(microseconds) * n` - `float(int)`, then ONE IEEE multiplication -, then `timedelta(microseconds=<float>)` -/
+def tsMulNumF (t : Int) : Num → Except Err Int
+  | .int n => tsOfMicros (.int (tsMicroseconds t * n))
+  | .flt n d => do
+      let f ← pyFloat (tsMicroseconds t)
+      let g ← bitsOfNum (.flt n d)
+      tsOfFloat (FloatRound.mulBits f g)
+
+/-- `ts / n` with every float step: `microseconds / n` is a true division - `int / int` rounds the exact quotient once,
+    `int / float` is `float(int)` then one IEEE division -, then `timedelta(microseconds=<float>)` -/
+def tsDivNumF (t : Int) : Num → Except Err Int
+  | .int n => do
+      let w ← pyTrueDiv (tsMicroseconds t) n
+      tsOfFloat w
+  | .flt n d => do
+      let f ← pyFloat (tsMicroseconds t)
+      let g ← bitsOfNum (.flt n d)
+      let w ← pyFloatDiv f g
+      tsOfFloat w
+
 /-! ## yaql: datetime operators (each datetime parameter with its declared class) -/
 
 def dtPlusTs (c : PClass) (d : DT) (t : Int) : Except Err DT := pyAddTd (convert c d) t
